@@ -8,9 +8,52 @@ import sys
 import warnings
 
 
+def one_call(c09, fn, factory):
+    args = factory()
+    try:
+        with warnings.catch_warnings():
+            warnings.simplefilter("ignore")
+            return "ok:" + c09.h(c09.sig(fn(*args)))
+    except Exception as ex:
+        return "exc:" + type(ex).__name__
+
+
+def all_keys():
+    """--all: the modules are imported once (importing makes no library call), then every call is made in its OWN forked child
+    of that pristine process: each child has made exactly one library call when it reports"""
+    import os
+    from harness.props import c09
+    lib = c09.Lib()
+    for cls, lst in lib.calls.items():
+        for (k, fn, factory) in lst:
+            r, w = os.pipe()
+            pid = os.fork()
+            if pid == 0:
+                os.close(r)
+                try:
+                    res = one_call(c09, fn, factory)
+                except BaseException as ex:          # never let a child fall back into the parent's loop
+                    res = "exc:" + type(ex).__name__
+                os.write(w, res.encode())
+                os._exit(0)
+            os.close(w)
+            buf = b""
+            while True:
+                chunk = os.read(r, 65536)
+                if not chunk:
+                    break
+                buf += chunk
+            os.close(r)
+            os.waitpid(pid, 0)
+            print("%s\t%s" % (k, buf.decode()))
+    return 0
+
+
 def main():
     from harness.props import c09
     key = sys.argv[1]
+    if key == "--all":
+        return all_keys()
     lib = c09.Lib()
     for cls, lst in lib.calls.items():
         for (k, fn, factory) in lst:
